@@ -6,6 +6,7 @@ import (
 	"sort"
 	"strings"
 	"sync/atomic"
+	"verif/internal/sched"
 
 	"verif/internal/core"
 )
@@ -404,8 +405,16 @@ func runC09(env *core.Env) {
 		}
 	})
 	validated := conf.run(env)
+	cf := buildConcFix(env)
+	concCov := concPhase(env, "C09", []sched.Scenario{
+		{Name: "prune||reopen-done-task", Store: cf.SA, Procs: []core.Req{core.R("", "--json", "prune", "--yes"), core.R("", "--json", "set", cf.T4).In(`{"state":"todo"}`)}},
+		{Name: "prune||new-task-in-empty-epic", Store: cf.SA, Procs: []core.Req{core.R("", "--json", "prune", "--yes"), core.R("", "--json", "new", "task").In(jsonStr(map[string]string{"title": "late child", "epic": cf.E2}))}},
+		{Name: "prune||set-done", Store: cf.SA, Procs: []core.Req{core.R("", "--json", "prune", "--yes"), core.R("", "--json", "set", cf.T2).In(`{"state":"done"}`)}},
+		{Name: "prune||prune", Store: cf.SA, Procs: []core.Req{core.R("", "--json", "prune", "--yes"), core.R("", "--json", "prune", "--yes")}},
+	}, invC14)
 	env.Finish("model_checking", map[string]interface{}{
-		"states": evalsA + permChecked, "transitions": followUps + reissue + 2*evalsA, "traces_validated_against_impl": validated, "samples": samples.list,
+		"concurrent": concCov,
+		"states":     evalsA + permChecked, "transitions": followUps + reissue + 2*evalsA, "traces_validated_against_impl": validated, "samples": samples.list,
 		"exhaustive": env.TimeLeft(), "stores_pruned": evalsA, "stores_where_something_was_pruned": prunedSomething, "follow_up_commands_on_pruned_ids": followUps,
 		"id_issue_scenarios": reissue, "event_order_permutations": permChecked, "permutations_violating": resurrected, "prune_outcome_classes": classes.snapshot(),
 		"unconfirmed_candidates": unconfirmed.Load(),
